@@ -2406,7 +2406,7 @@ def BHJM_cylinder_segment(
     mask_not_on_surf = ~(mask_surf_z | mask_surf_r | mask_surf_phi)
 
     # inside
-    mask_inside = mask_r_in & mask_phi_in & mask_z_in
+    mask_inside = mask_r_in & mask_phi_in & mask_z_in & mask_not_on_surf
     # else:
     #     mask_inside = np.full(len(observers), in_out == "inside")
     #     mask_not_on_surf = np.full(len(observers), True)
